@@ -52,6 +52,9 @@ func genTree(r *rand.Rand, depth int, cnt *int, parent *drive.Cmd, name string, 
 		nk := r.Intn(4)
 		if deep {
 			nk = 1 + r.Intn(2) // deep trees: 1-2 sub-commands per level, down to six levels
+		} else if parent == nil && r.Intn(12) == 0 {
+			nk = 9 + r.Intn(4) // a wide level: more than eight sub-commands, with aliases
+			depth = 1
 		}
 		for k := 0; k < nk; k++ {
 			t.Kids = append(t.Kids, genTree(r, depth-1, cnt, t, fmt.Sprintf("c%d", *cnt), typed, version, deep))
@@ -799,7 +802,7 @@ func c14One(c *core.Ctx, root *drive.Cmd, version bool, policy flag.ErrorHandlin
 	case "HELP", "VERSION":
 		want := "Usage: " + e.node.Path()
 		if e.kind == "VERSION" {
-			if !strings.Contains(o.Stderr, "ver-1.2.3") {
+			if !strings.Contains(o.Stderr, drive.VersionText) {
 				c.Violation("the version string was not printed", map[string]interface{}{"stderr": truncateStr(o.Stderr, 300)}, nil)
 				return
 			}
